@@ -793,4 +793,169 @@ def c04_parax_centred(ctx):
     return _r(ctx)
 
 
-RULES = [c04_parax_centred, c17_pol_local_frame, aperture_scaled_once, c01_insertion, c03_registry, c03_xy_exchange, scale_covers, c04_chief_ray, c01_arg_wiring_rule, c01_init_stores, scale_homogeneous, scale_system, scale_relies_on_thickness_edit, mirror, w_flow, dummy_identity]
+
+def no_stale(ctx):
+    from .common import stale_cache
+    return stale_cache(ctx, 'NO-STALE-STATE', [],
+                       'the re-described lens is answered with values of the original one', min_methods=0)
+
+
+# --------------------------------------------------------------------------
+# LENGTH-GRADES: a dimension lint over the syntax tree.  Every expression gets
+# the grade 'L' (a length of the lens: scales with it), '0' (pure number) or
+# unknown from a small table of attribute and accessor names; a sum, a
+# difference, max / min / clip / where of operands with *different known*
+# grades mixes a length with an absolute number: the value cannot scale with
+# the lens.  Comparisons are not looked at (tolerances are absolute by
+# design).  Unknown grades never produce a report.
+_GL, _GZ = 'L', '0'
+_ATTR_GRADE = {'x': _GL, 'y': _GL, 'z': _GL, 'radius': _GL, 'r_max': _GL,
+               'r_min': _GL, 'positions': _GL, 'thickness': _GL,
+               'semi_aperture': _GL, 'radii': _GL, 'opd': _GL,
+               'L': _GZ, 'M': _GZ, 'N': _GZ, 'vx': _GZ, 'vy': _GZ, 'k': _GZ}
+_CALL_GRADE = {'EPD': _GL, 'EPL': _GL, 'XPL': _GL, 'XPD': _GL, 'f1': _GL,
+               'f2': _GL, 'F1': _GL, 'F2': _GL, 'P1': _GL, 'P2': _GL,
+               'N1': _GL, 'N2': _GL, 'sag': _GL, 'get_thickness': _GL,
+               'FNO': _GZ, 'magnification': _GZ, 'n': _GZ}
+_NAME_GRADE = {'Px': _GZ, 'Py': _GZ, 'Hx': _GZ, 'Hy': _GZ}
+# mixed-grade sites of the reference tree, each read: the launch plane of a
+# paraxial ray of zero slope (its heights do not depend on where it starts)
+_GRADE_EXEMPT = {
+    ('Paraxial.f1', 'surfaces.positions[0] - 1'),
+    ('Paraxial.f2', 'self.surfaces.positions[1] - 1'),
+    ('Paraxial.F1', 'surfaces.positions[0] - 1'),
+    ('Paraxial.F2', 'self.surfaces.positions[1] - 1'),
+    ('Paraxial.marginal_ray', 'self.surfaces.positions[1] - 10'),
+}
+
+
+def _grade(e, env, out):
+    def same(gs, node):
+        known = [g for g in gs if g not in (None, 'any')]
+        if len(set(known)) > 1:
+            out.append(node)
+            return None
+        if None in gs:
+            return None
+        return known[0] if known else 'any'
+    if isinstance(e, ast.Constant):
+        if isinstance(e.value, (int, float)) and not isinstance(e.value, bool):
+            return 'any' if e.value == 0 else _GZ
+        return None
+    if isinstance(e, ast.Name):
+        return env.get(e.id, _NAME_GRADE.get(e.id))
+    if isinstance(e, ast.Attribute):
+        if unparse(e) == 'np.pi':
+            return _GZ
+        if unparse(e) == 'np.inf':
+            return 'any'
+        return _ATTR_GRADE.get(e.attr)
+    if isinstance(e, ast.Subscript):
+        return _grade(e.value, env, out)
+    if isinstance(e, ast.UnaryOp):
+        return _grade(e.operand, env, out)
+    if isinstance(e, ast.IfExp):
+        return same([_grade(e.body, env, out), _grade(e.orelse, env, out)], e)
+    if isinstance(e, ast.BinOp):
+        a, b = _grade(e.left, env, out), _grade(e.right, env, out)
+        if isinstance(e.op, (ast.Add, ast.Sub)):
+            return same([a, b], e)
+        if isinstance(e.op, ast.Mult):
+            if 'any' in (a, b):
+                return 'any'
+            return {(_GL, _GZ): _GL, (_GZ, _GL): _GL,
+                    (_GZ, _GZ): _GZ}.get((a, b))
+        if isinstance(e.op, ast.Div):
+            if a == 'any':
+                return 'any'
+            return {(_GL, _GZ): _GL, (_GZ, _GZ): _GZ,
+                    (_GL, _GL): _GZ}.get((a, b))
+        if isinstance(e.op, ast.Pow) and a == _GZ:
+            return _GZ
+        return None
+    if isinstance(e, ast.Call):
+        nm = unparse(e.func).split('.')[-1]
+        args = list(e.args)
+        if nm in ('max', 'min', 'maximum', 'minimum', 'fmax', 'fmin') and \
+                len(args) >= 2:
+            return same([_grade(a, env, out) for a in args], e)
+        if nm == 'clip' and len(args) == 3:
+            return same([_grade(a, env, out) for a in args], e)
+        if nm == 'where' and len(args) == 3:
+            _grade(args[0], env, out)
+            return same([_grade(a, env, out) for a in args[1:]], e)
+        if nm in ('max', 'min', 'amin', 'amax', 'nanmin', 'nanmax', 'abs',
+                  'absolute', 'mean', 'sum', 'copy', 'asarray', 'array',
+                  'ravel', 'float', 'atleast_1d', 'squeeze') and args:
+            return _grade(args[0], env, out)
+        for a in args:
+            _grade(a, env, out)
+        if nm in ('sin', 'cos', 'tan', 'arcsin', 'arccos', 'arctan',
+                  'deg2rad', 'radians', 'exp', 'log'):
+            return _GZ
+        if nm in _CALL_GRADE and isinstance(e.func, ast.Attribute):
+            return _CALL_GRADE[nm]
+        return None
+    return None
+
+
+def length_grades(ctx):
+    P = ctx.P
+    res = Result('LENGTH-GRADES', 'no sum, difference, max / min / clip / '
+                 'where mixes a length of the lens with an absolute number '
+                 '(dimension lint over every non-plotting function; grades '
+                 'from a table of attribute and accessor names, unknown '
+                 'grades are never reported)')
+    funcs = []
+    for c in P.classes.values():
+        funcs += list(c.methods.values()) + list(c.props.values())
+    funcs += list(P.funcs.values())
+    nsum, seen_exempt = 0, set()
+    for f in funcs:
+        if f.name.startswith(('view', 'draw', '_plot', 'info')) or \
+                'visualization' in f.module:
+            continue
+        res.saw(f)
+        env, out = {}, []
+        for st in ast.walk(f.node):
+            if isinstance(st, ast.Assign) and len(st.targets) == 1 and \
+                    isinstance(st.targets[0], ast.Name):
+                g = _grade(st.value, env, out)
+                if g not in (None, 'any'):
+                    env.setdefault(st.targets[0].id, g)
+            elif isinstance(st, (ast.Return, ast.Expr, ast.AugAssign,
+                                 ast.Assign)) and \
+                    getattr(st, 'value', None) is not None:
+                _grade(st.value, env, out)
+        for st in ast.walk(f.node):
+            if isinstance(st, ast.BinOp) and isinstance(
+                    st.op, (ast.Add, ast.Sub)):
+                nsum += 1
+        done = set()
+        for e in out:
+            if id(e) in done:
+                continue
+            done.add(id(e))
+            txt = unparse(e)
+            if (f.qual, txt) in _GRADE_EXEMPT:
+                seen_exempt.add((f.qual, txt))
+                res.exceptions.append(
+                    f'{f.qual}: {txt} -- launch plane of a paraxial ray of '
+                    f'zero slope')
+                continue
+            res.fail(ctx.finding(
+                'LENGTH-GRADES', f, e,
+                f'{txt} combines a length of the lens with an absolute '
+                f'number: the value does not scale with the lens, so the '
+                f'scaled lens is not traced like the lens built from the '
+                f'scaled prescription', construct=f'{f.qual}: {txt[:80]}'))
+    res.ok(f'{nsum} sums and differences in {len(res.analysed)} functions '
+           f'examined')
+    # the positive control: the exempt sites must still be *seen* as mixed
+    for k in seen_exempt:
+        res.ok(f'exempt site recognised as mixed: {k[0]}')
+    if nsum < 400:
+        raise AnalysisError(f'LENGTH-GRADES: only {nsum} sums found')
+    return res
+
+RULES = [length_grades, no_stale, c04_parax_centred, c17_pol_local_frame, aperture_scaled_once, c01_insertion, c03_registry, c03_xy_exchange, scale_covers, c04_chief_ray, c01_arg_wiring_rule, c01_init_stores, scale_homogeneous, scale_system, scale_relies_on_thickness_edit, mirror, w_flow, dummy_identity]
